@@ -6,6 +6,7 @@ import (
 
 	gogoproto "github.com/gogo/protobuf/proto"
 	"google.golang.org/protobuf/reflect/protoreflect"
+	"google.golang.org/protobuf/runtime/protoimpl"
 	"google.golang.org/protobuf/types/dynamicpb"
 )
 
@@ -159,4 +160,108 @@ func (p *Pkg) prToGo(dfd protoreflect.FieldDescriptor, v protoreflect.Value, t r
 		return out, fmt.Errorf("bridge: unsupported extension kind %v", dfd.Kind())
 	}
 	return out, nil
+}
+
+// ExtDynToGo converts a dynamic extension value into the Go value the owning runtime's extension API
+// expects (pointer-to-scalar / slice / *Msg for Gogo and Google V1, plain values for Google V2).
+// v1ExtGoType returns the Go type (in the V1 convention) of an extension of a Gogo or Google-V1 package.
+func (p *Pkg) v1ExtGoType(fn protoreflect.FullName) (reflect.Type, error) {
+	switch d := p.GenExt[fn].(type) {
+	case *gogoproto.ExtensionDesc:
+		return reflect.TypeOf(d.ExtensionType), nil
+	case *protoimpl.ExtensionInfo:
+		if d.ExtensionType == nil {
+			return nil, fmt.Errorf("bridge: %s has no legacy ExtensionType", fn)
+		}
+		return reflect.TypeOf(d.ExtensionType), nil
+	}
+	return nil, fmt.Errorf("bridge: extension variable %s is %T", fn, p.GenExt[fn])
+}
+
+func (p *Pkg) ExtDynToGo(dfd protoreflect.FieldDescriptor, v protoreflect.Value) (any, error) {
+	if p.Flavour != "gv2" {
+		t, err := p.v1ExtGoType(dfd.FullName())
+		if err != nil {
+			return nil, err
+		}
+		switch {
+		case dfd.IsList():
+			out := reflect.MakeSlice(t, 0, v.List().Len())
+			for i := 0; i < v.List().Len(); i++ {
+				ev, err := p.prToGo(dfd, v.List().Get(i), t.Elem())
+				if err != nil {
+					return nil, err
+				}
+				out = reflect.Append(out, ev)
+			}
+			return out.Interface(), nil
+		case dfd.Kind() == protoreflect.MessageKind || dfd.Kind() == protoreflect.BytesKind:
+			gv, err := p.prToGo(dfd, v, t)
+			if err != nil {
+				return nil, err
+			}
+			return gv.Interface(), nil
+		}
+		ev, err := p.prToGo(dfd, v, t.Elem())
+		if err != nil {
+			return nil, err
+		}
+		ptr := reflect.New(t.Elem())
+		ptr.Elem().Set(ev)
+		return ptr.Interface(), nil
+	}
+	xt, err := p.genExtType(dfd)
+	if err != nil {
+		return nil, err
+	}
+	scratch := Reflect(p.New(dfd.ContainingMessage().FullName()))
+	if err := p.setGen(scratch, xt.TypeDescriptor(), dfd, v); err != nil {
+		return nil, err
+	}
+	return xt.InterfaceOf(scratch.Get(xt.TypeDescriptor())), nil
+}
+
+// ExtGoToBytes canonicalises a Go extension value (as returned by a runtime's GetExtension) to the
+// reference encoding of a message holding only that extension.
+func (p *Pkg) ExtGoToBytes(dfd protoreflect.FieldDescriptor, goVal any) (b []byte, err error) {
+	defer func() {
+		if r := recover(); r != nil {
+			err = fmt.Errorf("bridge: extension value %T not convertible: %v", goVal, r)
+		}
+	}()
+	d := dynamicpb.NewMessage(dfd.ContainingMessage())
+	if p.Flavour != "gv2" {
+		rv := reflect.ValueOf(goVal)
+		if dfd.IsList() {
+			dl := d.Mutable(dfd).List()
+			for i := 0; i < rv.Len(); i++ {
+				pv, err := p.goToPR(dfd, rv.Index(i), func() protoreflect.Value { return dl.NewElement() })
+				if err != nil {
+					return nil, err
+				}
+				dl.Append(pv)
+			}
+		} else {
+			if rv.Kind() == reflect.Ptr && dfd.Kind() != protoreflect.MessageKind {
+				if rv.IsNil() {
+					return nil, fmt.Errorf("nil extension value")
+				}
+				rv = rv.Elem()
+			}
+			pv, err := p.goToPR(dfd, rv, func() protoreflect.Value { return d.NewField(dfd) })
+			if err != nil {
+				return nil, err
+			}
+			d.Set(dfd, pv)
+		}
+		return MarshalRef(d)
+	}
+	xt, err := p.genExtType(dfd)
+	if err != nil {
+		return nil, err
+	}
+	if err := p.setDyn(d, dfd, xt.ValueOf(goVal)); err != nil {
+		return nil, err
+	}
+	return MarshalRef(d)
 }
